@@ -31,22 +31,24 @@ type sup struct {
 	resources []map[string]interface{}
 	bigAllocs []map[string]interface{}
 	restarts  int
+	truncated bool
+	units     []unit
 }
 
-// Address-space caps (ulimit -v, KiB). A Go process maps about 1.2 GiB before it allocates anything,
-// so 3 GiB leaves room for single allocations up to roughly 1.5 GiB; anything larger ends the worker
-// at once with Go's "fatal error: out of memory" (the resource class) instead of zeroing gigabytes:
-// on this (virtualised, shared) box page-faulting fresh memory was measured at 0.1 GB/s under load,
-// i.e. 10-20 s for one hostile 2 GiB length, against ~0.2 s for a death and an exact resume.
-// The task's upper bound of 8 GiB is never approached.
+// Address-space caps (ulimit -v, KiB). A Go process maps about 1.2 GiB before it allocates anything;
+// 2.5 GiB leaves room for single allocations up to roughly 1 GiB (less when the heap is fragmented); anything
+// larger ends the worker at once with Go's "fatal error: out of memory" (the resource class). On this
+// (virtualised, shared) box touching a fresh page was measured at 0.1..0.6 ms under load: one hostile
+// 2 GiB length costs a minute if it is served, against about 2 s for a death, an exact resume and the
+// warm-up of the new process. The task's upper bound of 8 GiB per worker is never approached.
 var (
-	mainCapKB = 3 << 20
-	resCapKB  = 3 << 20
+	mainCapKB = 5 << 19
+	resCapKB  = 5 << 19
 )
 
 var (
 	batchBudget = 60 * time.Second // watchdog: no progress of a worker for this long (p99 of a case is microseconds)
-	soloFactor  = 3
+	soloFactor  = 5
 )
 
 func (s *sup) tierArgs() []string {
@@ -100,6 +102,24 @@ func readProgressEP(path string) (unit int, k int64, ep string, ok bool) {
 	return int(u), int64(kk), ep, true
 }
 
+// rssKB returns VmRSS of a process in KiB (-1 if unknown).
+func rssKB(pid int) int64 {
+	b, err := os.ReadFile(fmt.Sprintf("/proc/%d/status", pid))
+	if err != nil {
+		return -1
+	}
+	for _, l := range strings.Split(string(b), "\n") {
+		if strings.HasPrefix(l, "VmRSS:") {
+			f := strings.Fields(l)
+			if len(f) >= 2 {
+				v, _ := strconv.ParseInt(f[1], 10, 64)
+				return v
+			}
+		}
+	}
+	return -1
+}
+
 // cpuTicks returns utime+stime of a process from /proc/<pid>/stat.
 func cpuTicks(pid int) int64 {
 	b, err := os.ReadFile(fmt.Sprintf("/proc/%d/stat", pid))
@@ -124,6 +144,7 @@ type exitInfo struct {
 	class    string // clean | oom | killed | watchdog | harness | fatal/<class>
 	stderr   string // head of the stderr file
 	cpuGrew  bool   // watchdog only: CPU time still accumulating during the last third of the budget
+	memGrew  bool   // watchdog only: resident memory grew by more than 64 MiB during the last third of the budget
 	blocked  bool   // watchdog only: the goroutine running the case was not runnable in the SIGQUIT dump
 	exitCode int
 }
@@ -199,6 +220,7 @@ func (s *sup) run(capKB int, stderr, progress string, budget time.Duration, args
 	if err := cmd.Start(); err != nil {
 		return exitInfo{class: "harness", stderr: err.Error()}
 	}
+	t0 := time.Now()
 	done := make(chan error, 1)
 	go func() { done <- cmd.Wait() }()
 	tick := time.NewTicker(250 * time.Millisecond)
@@ -206,13 +228,24 @@ func (s *sup) run(capKB int, stderr, progress string, budget time.Duration, args
 	lastU, lastK := -1, int64(-1)
 	lastChange := time.Now()
 	var cpuAtTwoThirds int64 = -2
+	var rssAtTwoThirds int64 = -1
 	for {
 		select {
 		case <-done:
 			ws, _ := cmd.ProcessState.Sys().(syscall.WaitStatus)
+			cpu := int64((cmd.ProcessState.UserTime() + cmd.ProcessState.SystemTime()) / time.Millisecond)
+			kind := "worker"
+			for _, a := range args {
+				if a == "--solo" {
+					kind = "solo"
+				}
+			}
 			if cmd.ProcessState.Success() {
+				s.c.Count("process_cpu_ms/"+kind+"/exited-cleanly", cpu)
 				return exitInfo{class: "clean"}
 			}
+			s.c.Count("process_cpu_ms/"+kind+"/died", cpu)
+			s.c.Count("process_wall_ms/"+kind+"/died", int64(time.Since(t0)/time.Millisecond))
 			text := head(stderr, 1<<20)
 			return exitInfo{class: classifyStderr(text, ws, ws.Exited()), stderr: clip(text, 6000), exitCode: ws.ExitStatus()}
 		case <-tick.C:
@@ -226,9 +259,11 @@ func (s *sup) run(capKB int, stderr, progress string, budget time.Duration, args
 			idle := time.Since(lastChange)
 			if idle > budget*2/3 && cpuAtTwoThirds == -2 {
 				cpuAtTwoThirds = cpuTicks(cmd.Process.Pid)
+				rssAtTwoThirds = rssKB(cmd.Process.Pid)
 			}
 			if idle > budget {
 				cpuEnd := cpuTicks(cmd.Process.Pid)
+				rssEnd := rssKB(cmd.Process.Pid)
 				cmd.Process.Signal(syscall.SIGQUIT)
 				select {
 				case <-done:
@@ -238,6 +273,7 @@ func (s *sup) run(capKB int, stderr, progress string, budget time.Duration, args
 				}
 				text := head(stderr, 4<<20)
 				return exitInfo{class: "watchdog", stderr: clip(text, 6000), cpuGrew: cpuAtTwoThirds >= 0 && cpuEnd > cpuAtTwoThirds+20,
+					memGrew: rssAtTwoThirds >= 0 && rssEnd > rssAtTwoThirds+64<<10,
 					blocked: caseGoroutineBlocked(text)}
 			}
 		}
@@ -292,6 +328,16 @@ func epOfDesc(d map[string]interface{}) string {
 	return "unknown-entry-point"
 }
 
+func (s *sup) domainOf(res bool, u int) string {
+	if res {
+		return domNames[dResource]
+	}
+	if u >= 0 && u < len(s.units) {
+		return domNames[s.units[u].dom]
+	}
+	return "?"
+}
+
 func (s *sup) noteDeath(class string) {
 	s.mu.Lock()
 	s.deaths[class]++
@@ -325,6 +371,7 @@ func (s *sup) handleDeath(res bool, ei exitInfo, u int, k int64, ep string) {
 			s.mu.Unlock()
 		}
 		c.Count("resource_class/out_of_memory/"+ep, 1)
+		c.Count("resource_class/out_of_memory_by_domain/"+s.domainOf(res, u), 1)
 		c.Inconclusive("resource/out-of-memory-under-address-space-cap")
 	case ei.class == "watchdog":
 		s.noteDeath("watchdog")
@@ -333,6 +380,20 @@ func (s *sup) handleDeath(res bool, ei exitInfo, u int, k int64, ep string) {
 		case e2.class == "clean":
 			c.Merge(out)
 			c.Count("watchdog_then_completed_alone", 1)
+		case e2.class == "watchdog" && e2.memGrew:
+			// no return within the budget, but resident memory is still growing: the call is on its way
+			// to memory exhaustion (e.g. error messages of 32768 nested type descriptors, each wrapping
+			// the previous one: quadratic memory), which is the resource class, not non-termination
+			if desc == nil {
+				desc = map[string]interface{}{"unit": u, "k": k, "entry_point": ep}
+			}
+			desc["outcome"] = fmt.Sprintf("no return within %.0f s alone, resident memory still growing", (time.Duration(soloFactor) * batchBudget).Seconds())
+			delete(desc, "input_hex_full")
+			s.mu.Lock()
+			s.resources = append(s.resources, desc)
+			s.mu.Unlock()
+			c.Count("resource_class/slow_with_growing_memory/"+epOfDesc(desc), 1)
+			c.Inconclusive("resource/no-return-within-budget-while-memory-grows")
 		case e2.class == "watchdog" && (e2.cpuGrew || e2.blocked):
 			if desc == nil {
 				desc = map[string]interface{}{"unit": u, "k": k}
@@ -446,7 +507,11 @@ func (s *sup) runSlot(slot int, res bool) {
 		}
 		s.mu.Lock()
 		s.restarts++
+		trunc := s.truncated
 		s.mu.Unlock()
+		if trunc {
+			return // past the soft deadline: the rest of the unit is not run
+		}
 		if len(skips[u]) >= 300 {
 			s.c.Inconclusive("unit-abandoned-after-300-worker-deaths")
 			s.c.Note("unit %d abandoned after 300 worker deaths; last at case %d (%s, %s)", u, k, ep, ei.class)
@@ -471,6 +536,7 @@ func supervise(c *mon.Ctx) {
 		}
 	}
 	units := buildUnits(c.Seed, c.Thorough())
+	s.units = units
 	resUnits := buildResUnits(c.Seed, c.Thorough())
 	nw := 16
 	if v, err := strconv.Atoi(os.Getenv("C04_WORKERS")); err == nil && v > 0 {
@@ -478,6 +544,34 @@ func supervise(c *mon.Ctx) {
 	}
 	os.WriteFile(filepath.Join(dir, "next"), make([]byte, 8), 0o644)
 	os.WriteFile(filepath.Join(dir, "next-res"), make([]byte, 8), 0o644)
+	// Soft deadline at 3/4 of the driver's wall-clock limit: dispatching stops (the shared counters are
+	// moved past the end), workers finish their current unit and report. Decides nothing: the run is
+	// then marked as not having completed its case list.
+	limit := 20 * time.Minute
+	if c.Thorough() {
+		limit = 4 * time.Hour
+	}
+	if v := os.Getenv("VERIF_MAX_WALL"); v != "" {
+		if d, err := time.ParseDuration(v); err == nil {
+			limit = d
+		}
+	}
+	stopped := make(chan struct{})
+	go func() {
+		select {
+		case <-time.After(limit * 3 / 4):
+			s.mu.Lock()
+			s.truncated = true
+			s.mu.Unlock()
+			for _, n := range []string{"next", "next-res"} {
+				if f, err := os.OpenFile(filepath.Join(dir, n), os.O_RDWR, 0); err == nil {
+					f.WriteAt([]byte{0, 0, 0, 0, 0, 0, 0, 0x40}, 0) // little-endian 2^62
+					f.Close()
+				}
+			}
+		case <-stopped:
+		}
+	}()
 	var wg sync.WaitGroup
 	wg.Add(1)
 	go func() {
@@ -486,6 +580,11 @@ func supervise(c *mon.Ctx) {
 	}()
 	mon.ParallelN(nw, nw, func(j int) { s.runSlot(j, false) })
 	wg.Wait()
+	close(stopped)
+	if s.truncated {
+		c.Inconclusive("case-list-not-completed-within-three-quarters-of-the-wall-clock-limit")
+		c.Note("dispatching stopped after %v; units not started were not run", limit*3/4)
+	}
 
 	perDom := map[string]int{}
 	for _, u := range units {
@@ -498,7 +597,7 @@ func supervise(c *mon.Ctx) {
 	c.Set("worker_deaths_by_class", s.deaths)
 	sort.SliceStable(s.resources, func(a, b int) bool { return epOfDesc(s.resources[a]) < epOfDesc(s.resources[b]) })
 	c.Set("resource_class_worker_deaths", s.resources)
-	c.Set("allocations_over_1GiB_that_returned", s.bigAllocs)
+	c.Set("allocations_over_32MiB_that_returned_samples", s.bigAllocs)
 	c.Set("address_space_cap_KiB", map[string]int{"workers": mainCapKB, "resource_worker": resCapKB})
 	c.Set("watchdog_s", batchBudget.Seconds())
 }
